@@ -42,7 +42,7 @@ const (
 	ETime      = 14 // dt(ms) of virtual time since the previous record
 	EAttempt   = 20 // slot rid pod nc pin erdma accepted reason c4 c6
 	EDispose   = 21 // slot n ret whole n4 m4.. n6 m6..
-	ERelease   = 22 // slot pod eni a4 a6 handled
+	ERelease   = 22 // slot pod eni a4 a6 handled uidPassed uidAtAdd   (uid generation numbers, -1 = none)
 	ERestart   = 50 // the daemon crashed and started again; the preload records (12 slot 0 ..) of the new pool follow
 	EMark      = 99
 )
@@ -151,6 +151,7 @@ type World struct {
 	nextRid  int
 	cancels  map[int]context.CancelFunc
 	held     map[int][3]int // pod -> eni a4 a6 of its latest successful reply
+	addUID   map[int]int    // pod -> uid generation under which its allocation was acknowledged (set by the service harness)
 	inflight map[int]int    // pod -> requests without a reply yet
 	ctx      context.Context
 	cancel   context.CancelFunc
@@ -204,6 +205,25 @@ func (f *slotFactory) wait(kind int, rec []int) outcome {
 	w.pend[f.slot] = append(w.pend[f.slot], p)
 	w.mu.Unlock()
 	return <-p.done
+}
+
+// SetAddUID records the uid generation under which a pod's allocation was acknowledged.
+func (w *World) SetAddUID(pod, gen int) {
+	w.mu.Lock()
+	w.addUID[pod] = gen
+	w.mu.Unlock()
+}
+
+// UIDGen: "uid-<pod>" -> 0, "uid-<pod>-g<k>" -> k, anything else -> -1
+func UIDGen(u string) int {
+	var p, g int
+	if n, _ := fmt.Sscanf(u, "uid-%d-g%d", &p, &g); n == 2 {
+		return g
+	}
+	if n, _ := fmt.Sscanf(u, "uid-%d", &p); n == 1 {
+		return 0
+	}
+	return -1
 }
 
 func (w *World) fresh() int { w.nextAddr++; return w.nextAddr }
@@ -495,7 +515,13 @@ func (n *slotNI) Release(ctx context.Context, cni *daemon.CNI, request eni.Netwo
 	res, is := request.(*eni.LocalIPResource)
 	var rec []int
 	if is {
-		rec = []int{ERelease, n.slot, PodNum(cni.PodID), eniNum(res.ENI.ID), AddrID(res.IP.IPv4), AddrID(res.IP.IPv6), 0}
+		n.w.mu.Lock()
+		ua, okUA := n.w.addUID[PodNum(cni.PodID)]
+		n.w.mu.Unlock()
+		if !okUA {
+			ua = -1
+		}
+		rec = []int{ERelease, n.slot, PodNum(cni.PodID), eniNum(res.ENI.ID), AddrID(res.IP.IPv4), AddrID(res.IP.IPv6), 0, UIDGen(cni.PodUID), ua}
 		n.w.ev(rec...)
 		n.w.mu.Lock()
 		rec = n.w.block[len(n.w.block)-1]
@@ -567,7 +593,7 @@ var typeNames = []string{"secondary", "trunk", "erdma"}
 func NewWorld(cfg Config) *World {
 	eni.VerifSetRateLimit(rate.Inf)
 	w := &World{cfg: cfg, t0: time.Now(), cloud: map[int]*cloudENI{}, rids: map[*eni.LocalIPRequest]int{}, nextRid: 1000,
-		cancels: map[int]context.CancelFunc{}, held: map[int][3]int{}, inflight: map[int]int{}, FailRelease: map[int]bool{}}
+		cancels: map[int]context.CancelFunc{}, held: map[int][3]int{}, addUID: map[int]int{}, inflight: map[int]int{}, FailRelease: map[int]bool{}}
 	w.ctx, w.cancel = context.WithCancel(context.Background())
 	pc := &daemon.PoolConfig{BatchSize: cfg.Batch, MaxIPPerENI: cfg.Cap, EnableIPv4: cfg.On4, EnableIPv6: cfg.On6}
 	var nis []eni.NetworkInterface
